@@ -108,6 +108,40 @@ func renderStream(r *Run) {
 	for _, t := range harvestTemplates() {
 		emit(engineCfg{}, "", 0, t, map[string]*V{}, "harvest")
 	}
+	// small-scope exhaustion: EVERY sequence of at most 3 (thorough: 4) pieces of a 31-piece alphabet covering each
+	// standard tag, both hyphen positions, text with edge white space, raw/comment/capture and the loop controls -
+	// bare, as the body of a loop, and as the body of a conditional. Most short sequences are ill-nested (error kind
+	// and line are compared); the wrapped forms render. Interactions of two constructs that generators rarely put
+	// next to each other (a comment after a raw block, a hyphen against a block end, break inside capture) are all here.
+	{
+		pieces := []string{"a ", " b\n", "{{ x }}", "{{- x -}}", "{{ s }}", "{{ c }}", "{{ i }}", "{{ forloop.index }}",
+			"{% if t %}", "{% else %}", "{% elsif f %}", "{% endif %}", "{% unless f %}", "{% endunless %}",
+			"{% for i in r %}", "{%- endfor -%}", "{% tablerow i in r cols:2 %}", "{% endtablerow %}",
+			"{% raw %}", "{% endraw %}", "{% comment %}", "{% endcomment %}", "{% capture c %}", "{% endcapture %}",
+			"{% assign x = 2 %}", "{%- break -%}", "{% continue %}", "{% cycle 'p','q' %}", "{% case x %}", "{% when 1 %}", "{% endcase %}"}
+		env := map[string]*V{"x": VInt(0, 1), "s": VStr(" sp "), "t": VBool(true), "f": VBool(false), "r": VAnys(VInt(0, 1), VInt(0, 2), VInt(0, 3))}
+		maxLen := 3
+		if r.Tier == "thorough" {
+			maxLen = 4
+		}
+		var rec func(prefix string, depth int)
+		rec = func(prefix string, depth int) {
+			if depth > 0 {
+				emit(engineCfg{}, "", 1, prefix, env, "small-scope")
+				if depth <= 3 {
+					emit(engineCfg{}, "", 1, "{% for i in r %}"+prefix+"{% endfor %}", env, "small-scope-in-loop")
+					emit(engineCfg{}, "", 1, "{% if t %}"+prefix+"{% endif %}[{{ c }}]", env, "small-scope-in-if")
+				}
+			}
+			if depth == maxLen {
+				return
+			}
+			for _, p := range pieces {
+				rec(prefix+p, depth+1)
+			}
+		}
+		rec("", 0)
+	}
 	n := 4000
 	if r.Tier == "thorough" {
 		n = 60000
